@@ -65,6 +65,7 @@ pub fn full_ops() -> Vec<OpK> {
         OpK::Matmul { ta: true, tb: false, bias: true },
         OpK::UMul,
         OpK::UAdd,
+        OpK::UIdent,
         OpK::Recip,
         OpK::Sigmoid,
         OpK::Softmax,
